@@ -67,6 +67,60 @@ def task_perms(arg):
     out.sample({"date": date_iso, "population": label, "permutations": len(perms), "what": what}, limit=1)
     return out.dump()
 
+BIG_ORDERS = ["reversed", "youngest-first", "oldest-first", "half-turn", "even-then-odd", "pointers-first"]
+
+
+def big_order(df, name):
+    n = len(df)
+    idx = np.arange(n)
+    if name == "reversed":
+        return idx[::-1]
+    if name == "youngest-first":  # children far ahead of the adults they point to
+        return np.argsort(df["alter"].to_numpy(), kind="stable")
+    if name == "oldest-first":
+        return np.argsort(-df["alter"].to_numpy(), kind="stable")
+    if name == "half-turn":
+        return np.roll(idx, n // 2)
+    if name == "even-then-odd":
+        return np.concatenate([idx[::2], idx[1::2]])
+    has_ptr = np.zeros(n, dtype=bool)  # persons that point to somebody first, everyone pointed to at the end
+    for c in popgen.POINTERS:
+        has_ptr |= df[c].to_numpy() >= 0
+    return np.argsort(~has_ptr, kind="stable")
+
+
+def task_big_orders(arg):
+    """A table of more than a thousand rows (relabelled copies of all library households) in several global row orders."""
+    date_iso, nrows = arg
+    from mc.checks.c02 import filler_rows
+
+    out = Partial()
+    year = int(date_iso[:4])
+    df = popgen.frame(filler_rows(year, nrows))
+    keys = df["p_id"].tolist()
+    try:
+        base = sim.sim_all(df, date_iso)
+    except Exception as e:  # noqa: BLE001
+        if sim.known_crash(date_iso, e):
+            out.count("sims_skipped_known_C08_crash")
+        else:
+            out.violation(f"simulation-raises:{type(e).__name__}", {"date": date_iso, "big_table_rows": nrows}, repr(e)[:300])
+        return out.dump()
+    for name in BIG_ORDERS:
+        order = big_order(df, name)
+        d2 = df.iloc[order].reset_index(drop=True)
+        case = {"date": date_iso, "big_table_rows": nrows, "rows": len(df), "row_order": name, "what": "global order of a long table"}
+        out.state((date_iso, nrows, name))
+        try:
+            got = sim.sim_all(d2, date_iso)
+        except Exception as e:  # noqa: BLE001
+            out.violation(f"permuted-simulation-raises:{type(e).__name__}", case, repr(e)[:300])
+            continue
+        out.step()
+        ok = compare(out, base, got, keys, d2["p_id"].tolist(), case, prefix="long-table:")
+        out.outcome(("long-table", name, ok))
+    return out.dump()
+
 
 def task_index(arg):
     """Index labellings: values by position must not change; one output row per input row in input order."""
@@ -149,6 +203,10 @@ def task_ids_api(arg):
 
 
 def replay(case):
+    if "big_table_rows" in case:
+        part = task_big_orders((case["date"], case["big_table_rows"]))
+        bad = [v for v in part["violations"] if v[1].get("row_order") == case.get("row_order")]
+        return not bad, "; ".join(v[2] for v in bad[:3])
     date_iso = case["date"]
     if "rows" not in case:
         return True, "re-run the check"
@@ -209,6 +267,9 @@ def run(tier):
                 tasks.append((d, f"{name}[{i}].{col}={v}", new, perms, "deviation x rotations"))
     for part in harness.pmap(task_perms, harness.rotate(tasks), chunksize=2):
         rep.merge(part)
+    big = [(d, n) for d in (dates[::5] if thorough else dates[-1:]) for n in ((1030, 2060, 4400) if thorough else (1030, 2060))]
+    for part in harness.pmap(task_big_orders, big):
+        rep.merge(part)
     itasks = [(d, label, rows) for d in (dates if thorough else dates[-1:]) for label, rows in base_sets(int(d[:4]))]
     for part in harness.pmap(task_index, harness.rotate(itasks)):
         rep.merge(part)
@@ -217,7 +278,7 @@ def run(tier):
         for part in harness.pmap(task_ids_api, harness.rotate(ids)):
             rep.merge(part)
     rep.bound = {"dates": dates, "populations": [l for l, _ in base_sets(2023)], "max_rows_all_permutations": 6,
-                 "deviation_bound_k": 1, "deviation_dates": dev_dates, "float_tolerance_ulps": 4}
+                 "deviation_bound_k": 1, "long_tables": {"rows": sorted({n for _, n in big}), "orders": BIG_ORDERS}, "deviation_dates": dev_dates, "float_tolerance_ulps": 4}
     rep.assumptions = ["floats are compared to 4 ulp because a float group sum over >= 3 members is legitimately re-associated when rows move; "
                        "integers, booleans, dates, dtypes and id partitions are compared exactly",
                        "direct all-order exploration of the grouping functions is part of C12"]
